@@ -384,6 +384,8 @@ def _sig_match(sig, flat):
                 return False
             if "prefix" in v and not (isinstance(fv, str) and fv.startswith(v["prefix"])):
                 return False
+            if "contains" in v and not (isinstance(fv, str) and v["contains"] in fv):
+                return False
         elif fv != v:
             return False
     return True
